@@ -1462,7 +1462,7 @@ sexp sexp_sub (sexp ctx, sexp a, sexp b) {
 #if SEXP_USE_RATIOS
   case SEXP_NUM_RAT_CPX:
     a = tmp1 = sexp_make_flonum(ctx, sexp_ratio_to_double(ctx, a));
-    goto complex_sub;
+    goto complex_sub_real;
   case SEXP_NUM_CPX_RAT:
     b = tmp1 = sexp_make_flonum(ctx, sexp_ratio_to_double(ctx, b));
     /* ... FALLTHROUGH ... */
@@ -1476,12 +1476,12 @@ sexp sexp_sub (sexp ctx, sexp a, sexp b) {
   case SEXP_NUM_FLO_CPX:
   case SEXP_NUM_FIX_CPX:
   case SEXP_NUM_BIG_CPX:
+#if SEXP_USE_RATIOS
+  complex_sub_real:
+#endif
     a = tmp1 = sexp_make_complex(ctx, a, SEXP_ZERO);
     /* ... FALLTHROUGH ... */
   case SEXP_NUM_CPX_CPX:
-#if SEXP_USE_RATIOS
-  complex_sub:
-#endif
     r = sexp_complex_sub(ctx, a, b);
     if (negatep) {
       if (sexp_complexp(r)) {
